@@ -28,6 +28,8 @@ Proof.
 Qed.
 Lemma obs_eq_refl s : obs_eq s s.
 Proof. repeat split. Qed.
+Lemma obs_eq_sym a b : obs_eq a b -> obs_eq b a.
+Proof. intros [A [B [C D]]]. split; [|split; [|split]]; intros; symmetry; [apply A|apply B|apply C|apply D]. Qed.
 Lemma obs_eq_trans a b c : obs_eq a b -> obs_eq b c -> obs_eq a c.
 Proof.
   intros [A1 [A2 [A3 A4]]] [B1 [B2 [B3 B4]]]. split; [|split; [|split]]; intros.
@@ -184,4 +186,108 @@ Proof.
   destruct changed; [|injection H as <-; exact HJ5].
   bind_inv' H. destruct (tstr (s_path (gs x sd)) || tstr (s_oid (gs x sd)))%bool; [|discriminate].
   eapply mark_changed_pres; eassumption.
+Qed.
+
+(* ------------------------------------------------------------------ pieces of SyncEntry.__setitem__ *)
+(* the intercepted write is the index update followed by the field write *)
+Lemma exec_oid_fin E f e sd v s :
+  exec E f (COid true e sd v) s = (s' <- exec E f (COid false e sd v) s ;; Ok (raw_side s' e sd (fun y => w_oid y v))).
+Proof.
+  destruct f as [|f]; [reflexivity|]. rewrite !exec_oid_eq.
+  destruct (get_ent s e) as [en|]; [|reflexivity]. cbn [bind].
+  destruct (oid_loop (exec E f) e sd (s_oid (gs en sd)) v s) as [s1|]; [|reflexivity]. cbn [bind].
+  unfold oid_finish. destruct (get_ent s1 e); reflexivity.
+Qed.
+
+Lemma obs_eq_raw_same s e sd f :
+  (forall en, nth_error (ents s) e = Some en ->
+     s_oid (f (gs en sd)) = s_oid (gs en sd) /\ s_path (f (gs en sd)) = s_path (gs en sd)) ->
+  obs_eq s (raw_side s e sd f).
+Proof.
+  intros Hf. split; [|split; [|split]]; intros.
+  - rewrite oid_of_raw_side. destruct (Nat.eqb_spec e0 e) as [->|]; simpl; [|reflexivity].
+    destruct (Bool.eqb_spec sd0 sd) as [->|]; [|reflexivity].
+    unfold oid_of. destruct (nth_error (ents s) e) as [en|] eqn:En; [|reflexivity]. apply (Hf en eq_refl).
+  - rewrite path_of_raw_side. destruct (Nat.eqb_spec e0 e) as [->|]; simpl; [|reflexivity].
+    destruct (Bool.eqb_spec sd0 sd) as [->|]; [|reflexivity].
+    unfold path_of. destruct (nth_error (ents s) e) as [en|] eqn:En; [|reflexivity]. apply (Hf en eq_refl).
+  - rewrite oids_raw_side. reflexivity.
+  - apply slot_get_raw_side.
+Qed.
+
+(* updated(side, "oid", o) for an id: the field is written by _change_oid itself *)
+Lemma exec_oid_false_some E f e sd o s s' :
+  exec E f (COid false e sd (Some o)) s = Ok s' -> oid_of s' e sd = Some o.
+Proof.
+  intros H. destruct f as [|f]; [discriminate|]. rewrite exec_oid_eq in H. bind_inv' H. bind_inv' H.
+  unfold oid_finish in H. bind_inv' H. cbv zeta in H. injection H as <-. apply get_ent_ok in E2.
+  match goal with |- oid_of (dirty_add (if ?c then cs_add ?SB e else _) e) e sd = _ =>
+    set (sb := SB); transitivity (oid_of sb e sd); [destruct c; reflexivity|] end.
+  assert (Hents: ents sb = ents (raw_side x0 e sd (fun y => w_oid y (Some o)))).
+  { unfold sb. destruct (s_path (gs x1 sd)) as [[|c pp]|]; [|rewrite ents_slot_set|]; apply ents_st_oids. }
+  unfold oid_of at 1. rewrite Hents. fold (oid_of (raw_side x0 e sd (fun y => w_oid y (Some o))) e sd).
+  rewrite oid_of_raw_side, E2, Nat.eqb_refl, bool_eqb_refl. reflexivity.
+Qed.
+
+Lemma exec_oid_false_some_pres E f e sd o s s' :
+  IdxJ s -> exec E f (COid false e sd (Some o)) s = Ok s' -> IdxJ s'.
+Proof.
+  intros HJ H. pose proof (exec_oid_false_some _ _ _ _ _ _ _ H) as Ho.
+  assert (Ht: exec E f (COid true e sd (Some o)) s = Ok (raw_side s' e sd (fun y => w_oid y (Some o)))).
+  { rewrite exec_oid_fin, H. reflexivity. }
+  destruct f as [|f]; [discriminate|]. apply exec_oid_pres in Ht; [|exact HJ].
+  assert (Hobs: obs_eq s' (raw_side s' e sd (fun y => w_oid y (Some o)))).
+  { apply obs_eq_raw_same. intros en Hn. split; [|reflexivity]. simpl. unfold oid_of in Ho. rewrite Hn in Ho. symmetry. exact Ho. }
+  apply (IdxJ_obs _ s' (obs_eq_sym _ _ Hobs) Ht).
+Qed.
+
+(* a path assignment to None / '' touches nothing but the entry's own slot *)
+Lemma exec_path_falsy_frame E f fin k sd v s s' :
+  tstr v = false -> exec E f (CPath fin k sd v) s = Ok s' ->
+  (forall x sd', path_of s' x sd' = if fin && Nat.eqb x k && Bool.eqb sd' sd then v else path_of s x sd') /\
+  (forall x sd', otype_of s' x sd' = otype_of s x sd') /\
+  (forall x sd', oid_of s' x sd' = oid_of s x sd').
+Proof.
+  intros Hv H. destruct f as [|f]; [discriminate|]. rewrite exec_path_eq in H. bind_inv' H. cbv zeta in H.
+  destruct (tstr v && negb (tstr (s_oid (gs x sd))))%bool; [discriminate|]. bind_inv' H. injection H as <-.
+  apply get_ent_ok in E0.
+  assert (He: ents x0 = ents s).
+  { unfold path_main in E1. destruct (ostr_eqb (s_path (gs x sd)) v); [injection E1 as <-; reflexivity|].
+    assert (Hx: x0 = match s_path (gs x sd) with
+                     | Some pp => if tstr (s_path (gs x sd)) then slot_pop s sd pp (s_oid (gs x sd)) else s
+                     | None => s end).
+    { destruct v as [p|]; [|destruct (s_oid (gs x sd)); injection E1 as <-; reflexivity].
+      destruct (s_oid (gs x sd)); [|injection E1 as <-; reflexivity]. rewrite Hv in E1. injection E1 as <-. reflexivity. }
+    rewrite Hx. destruct (s_path (gs x sd)) as [pp|]; [destruct (tstr (Some pp)); [apply ents_slot_pop|]|]; reflexivity. }
+  assert (Hn: nth_error (ents (dirty_add x0 k)) k = Some x) by (simpl; rewrite He; exact E0).
+  destruct fin; cbn [andb].
+  - split; [|split]; intros x1 sd'.
+    + rewrite path_of_raw_side, Hn. simpl. destruct (Nat.eqb x1 k && Bool.eqb sd' sd)%bool; [reflexivity|].
+      unfold path_of. simpl. rewrite He. reflexivity.
+    + unfold otype_of, raw_side. rewrite Hn. simpl. rewrite nth_list_upd, He.
+      destruct (Nat.eqb_spec x1 k) as [->|]; [|reflexivity]. rewrite E0, gs_ss.
+      destruct (Bool.eqb sd' sd) eqn:Es; [apply Bool.eqb_prop in Es; subst sd'|]; reflexivity.
+    + rewrite oid_of_raw_side, Hn. simpl. destruct (Nat.eqb_spec x1 k) as [->|]; simpl; [|unfold oid_of; simpl; rewrite He; reflexivity].
+      destruct (Bool.eqb_spec sd' sd) as [->|]; [unfold oid_of; rewrite E0; reflexivity|unfold oid_of; simpl; rewrite He; reflexivity].
+  - split; [|split]; intros x1 sd'; [unfold path_of|unfold otype_of|unfold oid_of]; simpl; rewrite He; reflexivity.
+Qed.
+
+(* the last line of __setitem__: the whole side is replaced *)
+Lemma put_side_obs s e sd en val :
+  nth_error (ents s) e = Some en ->
+  let t := put_ent s e (ss en sd val) in
+  (forall x sd', oid_of t x sd' = if Nat.eqb x e && Bool.eqb sd' sd then s_oid val else oid_of s x sd') /\
+  (forall x sd', path_of t x sd' = if Nat.eqb x e && Bool.eqb sd' sd then s_path val else path_of s x sd') /\
+  (forall sd' k, al_get k (oids t sd') = al_get k (oids s sd')) /\
+  (forall sd' p o, slot_get t sd' p o = slot_get s sd' p o).
+Proof.
+  intros Hn t. split; [|split; [|split]]; intros.
+  - unfold t, oid_of, put_ent. simpl. rewrite nth_list_upd, Hn.
+    destruct (Nat.eqb_spec x e) as [->|]; simpl; [|reflexivity]. rewrite gs_ss.
+    destruct (Bool.eqb sd' sd); [reflexivity|rewrite Hn; reflexivity].
+  - unfold t, path_of, put_ent. simpl. rewrite nth_list_upd, Hn.
+    destruct (Nat.eqb_spec x e) as [->|]; simpl; [|reflexivity]. rewrite gs_ss.
+    destruct (Bool.eqb sd' sd); [reflexivity|rewrite Hn; reflexivity].
+  - destruct sd'; reflexivity.
+  - unfold slot_get. destruct sd'; reflexivity.
 Qed.
